@@ -369,8 +369,11 @@ class OpGen:
             # long spread chains through nested fields: fragment -> field { ...fragment } -> field { ...fragment } ...
             count = max(count, self.rng.randrange(4, 8))
             self.feats.add("frag.deep_graph")
-        for _ in range(count):
+        forced_root = 2 if (self.schema.query_type in comps and self.rng.random() < 0.15) else 0
+        for k_ in range(count + forced_root):
             t = self.rng.choice(supers) if (supers and "shape.iface_hierarchy" in self.dirty and self.rng.random() < 0.6) else self.rng.choice(comps)
+            if k_ >= count:
+                t = self.schema.query_type  # a pair of fragments on the root type: an operation can then be nothing but their spreads
             name = "Frag%s%d" % (self.rng.choice(["Alpha", "beta", "Gamma_x", "URL"]), self.uid())
             self.in_fragment = True
             saved_vars = self.vars
@@ -411,10 +414,19 @@ class OpGen:
                 root_frag = self.rng.choice(app)
                 if self.rng.random() < 0.5:
                     chosen = chosen[:1]  # a root fragment plus exactly one direct field
+        second_root_frag = None
+        if root_frag and len(app) >= 2 and self.rng.random() < 0.35:
+            # the whole result (or most of it) comes from several fragments on the root type
+            second_root_frag = self.rng.choice([n for n in app if n != root_frag])
+            if self.rng.random() < 0.6:
+                chosen = []
         sels = [self.field(root, f, self.max_depth, no_directive=(kind == "subscription")) for f in chosen]
         if root_frag:
             sels.insert(self.rng.randrange(0, len(sels) + 1), "..." + root_frag)
             self.feats.add("frag.named.on_root")
+        if second_root_frag:
+            sels.insert(self.rng.randrange(0, len(sels) + 1), "..." + second_root_frag)
+            self.feats.add("frag.named.on_root.several")
         if kind != "subscription" and self.rng.random() < 0.05:
             sels.append("__typename")
             self.feats.add("typename.root")
